@@ -194,3 +194,136 @@ def c06_programs(seed, tier):
                 reps.insert(0, rep("visual", 77, salt=9, mask=5))
             out.append(prog(f"image_{kind}_{mask}", [new(), pc(small_protos()[0], 3), image(reps), blob(5), pc(small_protos()[1], 2, guid="pc2"), FIN]))
     return out
+
+
+# ------------------------------------------------------------------------------------------ C10
+def v_int(x):
+    return [3, x]
+
+
+def v_sint(x):
+    return [2, x]
+
+
+def v_f32(x):
+    return [0, f32(x)["bits"]]
+
+
+def v_f64(x):
+    return [1, f64(x)["bits"]]
+
+
+def default_value(r, k=0):
+    t = r["t"]
+    if t == "single":
+        return v_f32(0.5 + k)
+    if t == "double":
+        return v_f64(0.25 + k)
+    lo, hi = r["min"], r["max"]
+    x = lo + (k % (hi - lo + 1)) if hi >= lo else lo
+    return v_int(x) if t == "int" else v_sint(x)
+
+
+def default_point(proto, k=0):
+    return [default_value(r, k) for r in proto]
+
+
+def c10_programs(seed, tier):
+    import itertools
+    r = random.Random(seed)
+    out = []
+    X, Y, Z = xyz("single")
+    R, A, E = sph("double")
+    cr, cg, cb = rgb()
+    inten = rec("intensity", "int", 0, 1000)
+
+    def one(name, proto, namesok=True, pts=None, exts=(), n=3):
+        steps = [new()] + [{"op": "ext", "ns": e, "url": "http://x/" + e} for e in exts]
+        steps.append(pc(proto, pts=[default_point(proto, k) for k in range(n)] if pts is None else pts, namesok=namesok))
+        steps.append(FIN)
+        out.append(prog(name, steps))
+
+    # (1) every subset of each group
+    for grp, members, base in (("cart", [X, Y, Z], [R, A, E]), ("sph", [R, A, E], [X, Y, Z]), ("col", [cr, cg, cb], [X, Y, Z]),
+                               ("ret", [rec("returnCount", "int", 0, 3), rec("returnIndex", "int", 0, 3)], [X, Y, Z])):
+        for k in range(len(members) + 1):
+            for sub in itertools.combinations(members, k):
+                one(f"grp_{grp}_{''.join(m['name'][-1] for m in sub) or 'none'}", list(sub) + base)
+                if grp in ("cart", "sph"):
+                    one(f"grp_{grp}_only_{''.join(m['name'][-1] for m in sub) or 'none'}", list(sub) + [inten])
+    # (2) invalid-state records: type variants, with and without their group
+    flags = [("cartesianInvalidState", [X, Y, Z], 2), ("sphericalInvalidState", [R, A, E], 2), ("isColorInvalid", [cr, cg, cb], 1),
+             ("isIntensityInvalid", [inten], 1), ("isTimeStampInvalid", [rec("timeStamp", "double")], 1)]
+    for fname, grp, hi in flags:
+        base = [X, Y, Z] if grp[0]["name"] != "cartesianX" else []
+        for label, fr in (("ok", rec(fname, "int", 0, hi)), ("hi1", rec(fname, "int", 0, hi + 1)), ("lo1", rec(fname, "int", 1, hi)),
+                          ("narrow", rec(fname, "int", 0, hi - 1)), ("sint", rec(fname, "sint", 0, hi)), ("f32", rec(fname, "single"))):
+            one(f"flag_{fname}_{label}", base + grp + [fr])
+        one(f"flag_{fname}_nogroup", ([X, Y, Z] if grp[0]["name"] != "cartesianX" else [R, A, E]) + [rec(fname, "int", 0, hi)])
+    # (3) type rules
+    for nm in ("sphericalAzimuth", "sphericalElevation"):
+        for t, kw in (("int", dict(mn=-3, mx=3)), ("sint", dict(mn=-3000, mx=3000, scale=0.001)), ("single", {})):
+            pr = [rec(m["name"], t, **kw) if m["name"] == nm else m for m in (R, A, E)]
+            one(f"type_{nm}_{t}", pr)
+    for nm in ("rowIndex", "columnIndex", "returnCount", "returnIndex"):
+        for t, kw in (("int", dict(mn=0, mx=9)), ("sint", dict(mn=0, mx=9)), ("double", {})):
+            extra = [rec(nm, t, **kw)]
+            if nm.startswith("return"):
+                other = "returnIndex" if nm == "returnCount" else "returnCount"
+                extra.append(rec(other, "int", 0, 9))
+            one(f"type_{nm}_{t}", [X, Y, Z] + extra)
+    # (4) degenerate prototypes
+    one("dup_intensity", [X, Y, Z, inten, rec("intensity", "int", 0, 5)])
+    one("dup_x", [X, X, Y, Z])
+    one("all_constant", xyz_sint(5, 5))
+    one("all_constant_plus_flag", xyz_sint(0, 0) + [rec("rowIndex", "int", 3, 3)])
+    one("one_constant", [X, Y, Z, rec("rowIndex", "int", 3, 3)])
+    one("full_range", [X, Y, Z, rec("intensity", "int", I64MIN, I64MAX)], pts=[[v_f32(1), v_f32(2), v_f32(3), v_int(x)] for x in (I64MIN, -1, 0, I64MAX)])
+    one("empty_proto", [])
+    # (5) extension names
+    one("ext_ok", [X, Y, Z, rec("foo", "int", 0, 9, ns="ext")], exts=("ext",))
+    one("ext_unregistered", [X, Y, Z, rec("foo", "int", 0, 9, ns="ext")])
+    one("ext_other_registered", [X, Y, Z, rec("foo", "int", 0, 9, ns="ext")], exts=("other",))
+    for bad in ("", "xmlfoo", "XMLa", "a b", "a.b", "ä", "a:b", "a<b"):
+        one(f"ext_badname_{len(out)}", [X, Y, Z, rec(bad, "int", 0, 9, ns="ext")], exts=("ext",), namesok=False)
+        one(f"ext_badns_{len(out)}", [X, Y, Z, rec("foo", "int", 0, 9, ns=bad)], namesok=False)
+    one("ext_std_name", [X, Y, Z, rec("intensity", "int", 0, 9, ns="ext")], exts=("ext",))
+    for bad in ("", "xmlns", "a b", "ä"):
+        out.append(prog(f"regext_bad_{len(out)}", [new(), {"op": "ext", "ns": bad, "url": "http://x", "nameok": False}, FIN]))
+    out.append(prog("regext_dup", [new(), {"op": "ext", "ns": "e", "url": "http://x"}, {"op": "ext", "ns": "e", "url": "http://y"}, FIN]))
+    # (6) value vectors: arity, type per position, integers around their range at every bit phase
+    base = [X, Y, Z, inten]
+    good = default_point(base)
+    one("arity_short", base, pts=[good, good[:3], good])
+    one("arity_long", base, pts=[good, good + [v_int(1)], good])
+    one("arity_empty", base, pts=[good, [], good])
+    for i in range(4):
+        for wrong in (v_int(1), v_sint(1), v_f32(1.0), v_f64(1.0)):
+            if wrong[0] == good[i][0]:
+                continue
+            bad = list(good); bad[i] = wrong
+            one(f"type_pos{i}_kind{wrong[0]}", base, pts=[good, bad, good])
+    for phase in range(8):
+        # `phase` preceding 1-bit... use a (8+phase)-bit record before a 3-bit record so that it starts at bit `phase` of a byte
+        lead = rec("rowIndex", "int", 0, (1 << (8 + phase)) - 1) if phase else None
+        pr = [X, Y, Z] + ([lead] if lead else []) + [rec("intensity", "int", 10, 17)]
+        for val in (9, 18, 255, 10 + 256, -1, I64MAX, I64MIN):
+            gp = default_point(pr)
+            bp = list(gp); bp[-1] = v_int(val)
+            one(f"range_phase{phase}_{val}", pr, pts=[gp, bp, gp])
+    sr = [X, Y, Z, rec("intensity", "sint", -100, 100, 0.5, 1.0)]
+    for val in (-101, 101, 1 << 40):
+        gp = default_point(sr); bp = list(gp); bp[-1] = v_sint(val)
+        one(f"range_sint_{val}", sr, pts=[gp, bp, gp])
+    # (7) call orders
+    p0 = small_protos()[0]
+    out.append(prog("abandon_pc", [new(), pc(p0, 5, end="drop"), pc(p0, 4, guid="second"), FIN]))
+    out.append(prog("abandon_pc_many", [new(), blob(10), pc(p0, 5000, end="drop"), pc(small_protos()[1], 3, guid="second"), blob(7), FIN]))
+    out.append(prog("abandon_image", [new(), image([rep("visual", 50)], end="drop"), pc(p0, 2), FIN]))
+    out.append(prog("second_projection", [new(), image([rep("pinhole", 10, focal=1.0, pw=1.0, ph=1.0, px=1.0, py=1.0), rep("spherical", 12, pw=1.0, ph=1.0)]), FIN]))
+    out.append(prog("two_visuals", [new(), image([rep("visual", 10, salt=1), rep("visual", 12, salt=2), rep("cylindrical", 5, radius=1.0, py=1.0, pw=1.0, ph=1.0)]), FIN]))
+    out.append(prog("image_without_rep", [new(), image([]), pc(p0, 2), FIN]))
+    out.append(prog("finalize_twice", [new(), pc(p0, 3), FIN, FIN]))
+    out.append(prog("empty_guid", [new(""), pc(p0, 3), FIN]))
+    out.append(prog("empty_pc_guid", [new(), pc(p0, 3, guid=""), FIN]))
+    return out
